@@ -9,6 +9,9 @@ import ExponaxModel.Model.EtdrkSpec
 import ExponaxModel.Model.Wave
 import ExponaxModel.Model.Guards
 import ExponaxModel.Model.Spectrum
+import ExponaxModel.Model.Metrics
+import ExponaxModel.Model.Interp
+import ExponaxModel.Model.IC
 import ExponaxModel.Generated.Etdrk
 import ExponaxModel.Generated.Convert
 import ExponaxModel.Generated.Misc
@@ -411,6 +414,66 @@ def dispatch (op : String) : P String := do
     let D ← pNat; let N ← pNat; let power ← pNat; let avg ← pNat
     let u ← pMany (N ^ D) pRe
     return outRe (Spectrum.spectrum D N (power = 1) (avg = 1) u).toList
+  | "mapres" =>
+    let D ← pNat; let No ← pNat; let Nn ← pNat; let odd ← pNat
+    let u ← pMany (No ^ D) pRe
+    return outRe (Interp.mapBetween D No Nn (odd = 1) u).toList
+  | "mapsrc" =>
+    -- source flat index (or -1) of every target stored mode
+    let D ← pNat; let No ← pNat; let Nn ← pNat
+    return outInts ((List.range (numModes D Nn)).map (fun h' =>
+      match Interp.srcIndex D No Nn (unflatten (wavenumberShape D Nn) h') with
+      | some idx => Int.ofNat (flatten (wavenumberShape D No) idx)
+      | none => -1))
+  | "interp" =>
+    let D ← pNat; let N ← pNat; let sc ← pRe
+    let u ← pMany (N ^ D) pRe
+    let x ← pMany D pRe
+    return outRe [Interp.interpolate D N sc u x.toList]
+  | "metric_spatial" =>
+    let D ← pNat; let N ← pNat; let L ← pRe; let p' ← pRe; let q ← pRe
+    let u ← pMany (N ^ D) pRe
+    return outRe [Metrics.spatialAggregator D N L p' q u]
+  | "metric_fourier" =>
+    -- D N L s p q hasband lo hi hasderiv m floor  u[N^D]
+    let D ← pNat; let N ← pNat; let L ← pRe; let sc ← pRe; let p' ← pRe; let q ← pRe
+    let hb ← pNat; let lo ← pNat; let hi ← pNat; let hd ← pNat; let m ← pRe; let fl ← pRe
+    let u ← pMany (N ^ D) pRe
+    let uh := rfftnM D N u
+    let mag : Array CF := uh.map (fun z => (⟨CF.cabs z, 0.0⟩ : CF))
+    return outRe [Metrics.fourierAggregator D N L sc p' q (if hb = 1 then some (lo, hi) else none)
+      (if hd = 1 then some m else none) fl mag]
+  | "correlation" =>
+    let D ← pNat; let N ← pNat
+    let u ← pMany (N ^ D) pRe
+    let v ← pMany (N ^ D) pRe
+    return outRe [Metrics.correlationChannel D N (1 : CF) u v]
+  | "normalize" =>
+    let z ← pNat; let sd ← pNat; let mx ← pNat; let n ← pNat
+    let u ← pMany n pRe
+    return outRe (IC.normalizeIc (z = 1) (sd = 1) (mx = 1) u).toList
+  | "clamp" =>
+    let lo ← pRe; let hi ← pRe; let n ← pNat
+    let u ← pMany n pRe
+    return outRe (IC.clamp lo hi u).toList
+  | "trunc" =>
+    let D ← pNat; let N ← pNat; let cutoff ← pNat; let off ← pRe
+    let noise ← pMany (N ^ D) pRe
+    return outRe (IC.truncatedSeries D N cutoff off noise).toList
+  | "combine" =>
+    let mode ← pNat; let n ← pNat
+    let dn ← pMany n pRe; let rn ← pMany n pRe; let sn ← pMany n pRe
+    return outRe [Metrics.combine mode dn.toList rn.toList sn.toList]
+  | "forced" =>
+    -- u + dt*f through the regenerated ForcedStepper.step with the identity as inner stepper
+    let dt ← pRe; let n ← pNat
+    let u ← pMany n pRe; let f ← pMany n pRe
+    let r : BVec := Gen.Misc.forced_step (fun (x : BVec) => x) (BVec.s dt) (BVec.v u) (BVec.v f)
+    return outRe (r.toArray n).toList
+  | "cutoff" =>
+    -- the regenerated cutoff arithmetic of BaseNonlinearFun.__init__, evaluated in binary64 like the implementation
+    let N ← pNat; let frac ← pRe
+    return outRe [(Gen.Misc.dealias_cutoff N frac : CF)]
   | _ => throw s!"unknown op {op}"
 
 partial def loop (h : IO.FS.Stream) (out : IO.FS.Stream) : IO Unit := do
